@@ -215,6 +215,9 @@ def run_case(case) -> Outcome:
     nontrivial = mode != "inline"
     for th in threads:
         for op in th["ops"]:
+            if op.get("partial") is not None:
+                nontrivial = True
+                continue
             dt = ent[op["e"] % len(ent)][5]
             v = op["v"]
             if dt in rc.INTEGERS:
@@ -253,6 +256,16 @@ def run_case(case) -> Outcome:
             e = ent[op["e"] % len(ent)]
             index, sub, name, pname, top, dt = e
             tag = f"mode {mode} thread {t} node {threads[t]['node']} op {k} {index:04x}:{sub:02x} via {op['path']}"
+            if op.get("partial") is not None:
+                # an upload through the stream interface that the caller does not read to the end
+                if (index, sub) in last:
+                    try:
+                        with get_var(remote.sdo, e[:5], op["path"]).open("rb", buffering=op.get("buf", 0)) as f:
+                            f.read(op["partial"])
+                    except Exception as ex:
+                        local_D.append(Discrepancy("C03/partial-read-raises", f"{tag}: {type(ex).__name__}: {ex}"))
+                        break
+                continue
             try:
                 rv = get_var(remote.sdo, e[:5], op["path"])
                 lv = get_var(local.sdo, e[:5], op["path"])
@@ -378,6 +391,8 @@ def _run_virtual(case, ent, nontrivial):
                 e = ent[op["e"] % len(ent)]
                 index, sub, name, pname, top, dt = e
                 tag = f"mode virtual thread {t} op {k} {index:04x}:{sub:02x} via {op['path']}"
+                if op.get("partial") is not None:
+                    continue
                 try:
                     check_value(tag, dt, op["v"], get_var(remote.sdo, e[:5], op["path"]),
                                 get_var(local.sdo, e[:5], op["path"]), local, index, sub, local_D)
@@ -482,6 +497,11 @@ def case_strategy(draw, modes):
             dt = ent[e][5]
             ops.append({"e": e, "path": draw(st.sampled_from(["index", "name", "dotted", "sub", "member"])),
                         "v": draw(value_strategy(dt))})
+            if draw(st.integers(0, 5)) == 0:
+                # abandon an upload of something written before, half-way
+                prev = draw(st.sampled_from(ops))
+                ops.append({"e": prev["e"], "path": prev["path"], "partial": draw(st.integers(0, 12)),
+                            "buf": draw(st.sampled_from([0, 0, 3, 1024]))})
         threads.append({"node": node_ids[t], "ops": ops})
     case = {"od": od, "mode": mode, "threads": threads}
     if mode == "baton":
@@ -550,6 +570,20 @@ def enum_cases(thorough):
                     v = bytes([i]) * 9
             ops.append({"e": i, "path": ["sub", "dotted", "member", "name"][i % 4], "v": v})
         yield {"od": od, "mode": "inline", "threads": [{"node": 8, "ops": ops}]}
+    # an upload abandoned half-way must not disturb the transfers that follow
+    s_i = [i for i, en in enumerate(ent) if en[5] == rc.VISIBLE_STRING][0]
+    d_i = [i for i, en in enumerate(ent) if en[5] == rc.DOMAIN][0]
+    u_i = [i for i, en in enumerate(ent) if en[5] == rc.UNSIGNED64][0]
+    for k in (0, 1, 7, 10):
+        for buf in (0, 3, 1024):
+            yield {"od": od, "mode": "inline", "threads": [{"node": 6, "ops": [
+                {"e": s_i, "path": "name", "v": "Pump controller #7 (north hall)"},
+                {"e": d_i, "path": "index", "v": bytes(range(40))},
+                {"e": s_i, "path": "name", "partial": k, "buf": buf},
+                {"e": d_i, "path": "index", "v": bytes(range(60, 90))},
+                {"e": d_i, "path": "index", "partial": k, "buf": buf},
+                {"e": u_i, "path": "index", "v": 0x1122334455667788},
+                {"e": s_i, "path": "name", "v": "second text, long enough for segments"}]}]}
     # all values of the 8- and 16-bit types
     for dt in (rc.INTEGER8, rc.UNSIGNED8, rc.INTEGER16, rc.UNSIGNED16):
         e = [i for i, en in enumerate(ent) if en[5] == dt][0]
